@@ -315,3 +315,100 @@ Print Assumptions C06_forced_display_setting_wins.
 Example C06_source_display_setting_witness :
   MDs.setting_for MDs.EkAttemptWillRetry None (Some MDs.DNever) MDs.DImmediate MDs.DImmediate = MDs.DNever.
 Proof. reflexivity. Qed.
+
+(* ================================================================ fourth round (docs/notes/Gen.md, fourth part) *)
+
+(* ---- the whole of TestFilter::filter_match (C13, C04) *)
+
+(* C13 "shards partition the tests that pass all other filters": TestFilter::filter_match, regenerated from the source
+   as a whole -- filter_ignored_mismatch, then ResolvedFilterPatterns::name_match (skip patterns override; SkipOnly with
+   patterns answers MatchWithPatterns; Patterns needs a positive match) and filter_expression_match (no filtersets:
+   MatchEmptyPatterns; some filterset matches: MatchWithPatterns, none: Mismatch(Expression); then the default-set bound)
+   combined with the name reason first, then filter_partition_mismatch, else Matches -- is Model/FilterFull.v's
+   [filter_match_full], the function C13's and C04's listing theorems are about, for every filter, partitioner state,
+   test name and ignored flag. The answers of the matchers (HashSet::contains, AhoCorasick::is_match,
+   Filterset::matches_test, Partitioner::test_matches) are inputs of the generated function; the lemma instantiates them
+   with the model's answers ([d]: any value at a position the source does not ask). Letting an arm of the (name,
+   expression) match answer Some(Matches), so that the partition stage is skipped, falsifies it. *)
+Theorem C13_source_filter_match :
+  forall (f : MFF.tfilter) cur name ign tb tn ecx d,
+    gfmatch_to_model
+      (G.TestFilter_filter_match (filter_view f) tb tn ecx (bound_of_model (MFF.tf_bound f)) ign
+         (skip_exact_of d (MFF.tf_pats f) name) (skip_match_of d (MFF.tf_pats f) name)
+         (exact_of d (MFF.tf_pats f) name) (pattern_match_of d (MFF.tf_pats f) name)
+         (set_matches_of_model (MFF.tf_ets f) name) (MFF.tf_dt f name)
+         (partition_matches_of d (MFF.tf_pb f) cur name)) =
+    fst (MFF.filter_match_full f cur name ign).
+Proof. exact gen_filter_match_is_model. Qed.
+Print Assumptions C13_source_filter_match.
+
+(* C04 "a test is selected iff it passes every stage": the same tie, for the stages before the partition: what the
+   source answers when no partitioner is configured is [Mismatch r] when the model's first four stages ([pre_full]:
+   ignored, name, expression / default set) reject with reason [r], and [Matches] otherwise. (Properties/Gen.v
+   C04_source_filter_match ties the stage ORDER with the three sub-stage verdicts as inputs; here the sub-stages are
+   translated too.) *)
+Theorem C04_glue_source_filter_match :
+  forall (f : MFF.tfilter) name ign tb tn ecx d,
+    MFF.tf_pb f = None ->
+    gfmatch_to_model
+      (G.TestFilter_filter_match (filter_view f) tb tn ecx (bound_of_model (MFF.tf_bound f)) ign
+         (skip_exact_of d (MFF.tf_pats f) name) (skip_match_of d (MFF.tf_pats f) name)
+         (exact_of d (MFF.tf_pats f) name) (pattern_match_of d (MFF.tf_pats f) name)
+         (set_matches_of_model (MFF.tf_ets f) name) (MFF.tf_dt f name) d) =
+    match MFF.pre_full f name ign with Some r => MFl.Mismatch r | None => MFl.Matches end.
+Proof.
+  intros f name ign tb tn ecx d Hpb.
+  pose proof (gen_filter_match_is_model f 0 name ign tb tn ecx d) as H.
+  unfold partition_matches_of in H. rewrite Hpb in H. rewrite H.
+  unfold MFF.filter_match_full, MFl.filter_match. rewrite Hpb. destruct (MFF.pre_full f name ign); reflexivity.
+Qed.
+Print Assumptions C04_glue_source_filter_match.
+
+(* C13, read off the generated function alone (no model): when a partitioner is configured, the source selects nothing
+   the partitioner did not accept -- whichever of MatchEmptyPatterns / MatchWithPatterns the name and expression stages
+   answered, for every value of every other input. *)
+Theorem C13_source_partition_gates_filter_match :
+  forall self tb tn ecx bd ign p1 p2 p3 p4 pm pd pp tok,
+    G.TestFilter_partitioner self = Some tok ->
+    G.TestFilter_filter_match self tb tn ecx bd ign p1 p2 p3 p4 pm pd pp = G.FilterMatch_Matches -> pp = true.
+Proof. exact gen_filter_match_needs_partition. Qed.
+Print Assumptions C13_source_partition_gates_filter_match.
+
+(* the model's facts, from the property text: a test that passes all other filters is partition-matched whatever kind
+   of match accepted it; a rejected test does not reach the partitioner (the counter does not move); two hash shards
+   never both select a test *)
+Theorem C13_accepted_test_is_partitioned :
+  forall f cur name ign b,
+    MFF.tf_pb f = Some b ->
+    MFl.filter_ignored (MFF.tf_ri f) ign = None ->
+    MNF.nm_accepts (MNF.rname_match (MFF.tf_pats f) name) = true ->
+    MNF.nm_accepts (MFF.filter_expression_match (MFF.tf_ets f) (MFF.tf_dt f) (MFF.tf_bound f) name) = true ->
+    fst (MFF.filter_match_full f cur name ign) =
+    if fst (MFl.part_match b cur name) then MFl.Matches else MFl.Mismatch MFl.MPartition.
+Proof. exact PFG.accepted_test_is_partitioned. Qed.
+Print Assumptions C13_accepted_test_is_partitioned.
+
+Theorem C13_rejected_test_skips_partition :
+  forall f cur name ign r,
+    MFF.pre_full f name ign = Some r -> MFF.filter_match_full f cur name ign = (MFl.Mismatch r, cur).
+Proof. exact PFG.rejected_test_skips_partition. Qed.
+Print Assumptions C13_rejected_test_skips_partition.
+
+Theorem C13_hash_shards_disjoint_for_accepted :
+  forall f f' cur cur' name ign b b',
+    MFF.tf_pb f = Some b -> MFF.tf_pb f' = Some b' ->
+    MFl.pb_kind b = MFl.PHash -> MFl.pb_kind b' = MFl.PHash -> MFl.pb_total b = MFl.pb_total b' ->
+    MFl.pb_shard b <> MFl.pb_shard b' -> 1 <= MFl.pb_shard b -> 1 <= MFl.pb_shard b' ->
+    fst (MFF.filter_match_full f cur name ign) = MFl.Matches ->
+    fst (MFF.filter_match_full f' cur' name ign) = MFl.Matches -> False.
+Proof. exact PFG.hash_shards_disjoint_for_accepted. Qed.
+Print Assumptions C13_hash_shards_disjoint_for_accepted.
+
+(* non-vacuity: with a positional pattern AND a filterset that both match, shard 2 of 2 (count) rejects the first test *)
+Example C13_source_filter_match_witness :
+  let f := MFF.builder_new MFl.RIDefault (Some {| MFl.pb_kind := MFl.PCount; MFl.pb_shard := 2; MFl.pb_total := 2 |})
+             (MNF.Patterns [[97]] [] [] []) [fun _ => true] (fun _ => true) MFF.BAll in
+  fst (MFF.filter_match_full f 0 [97] false) = MFl.Mismatch MFl.MPartition /\
+  G.TestFilter_filter_match (filter_view f) 0 String.EmptyString 0 G.FilterBound_All false false false false true
+    (fun _ => true) true false = G.FilterMatch_Mismatch G.MismatchReason_Partition.
+Proof. vm_compute. split; reflexivity. Qed.
